@@ -285,7 +285,9 @@ pub struct Related {
 pub fn related(fam: Fam) -> BoxedStrategy<Related> {
     (
         universe(),
-        seq_parts(fam, 6, 3),
+        // one case in eight: a long first sequence (up to 40 raw blocks), so that holdings of
+        // ten and more canonical blocks meet requests derived from them
+        prop_oneof![7 => seq_parts(fam, 6, 3).boxed(), 1 => seq_parts(fam, 40, 6).boxed()],
         seq_parts(fam, 5, 2),
         seq_parts(fam, 4, 2),
         (0u8..10, prop::collection::vec(0u8..12, 1..=6), any::<u8>()),
